@@ -538,10 +538,9 @@ func toProto(fdesc protoreflect.FieldDescriptor, v starlark.Value) (protoreflect
 	case protoreflect.StringKind:
 		if s, ok := starlark.AsString(v); ok {
 			return protoreflect.ValueOfString(s), nil
-		} else if b, ok := v.(starlark.Bytes); ok {
-			// TODO(adonovan): allow bytes for string? Not friendly to a Java port.
-			return protoreflect.ValueOfBytes([]byte(b)), nil
 		}
+		// A bytes value is not accepted for a string field: storing
+		// ValueOfBytes in a string field makes protoreflect panic.
 
 	case protoreflect.BytesKind:
 		if s, ok := starlark.AsString(v); ok {
